@@ -18,7 +18,7 @@ from xdsl.utils import arg_spec  # noqa: E402
 from xdsl.utils.arg_spec import ArgSpec, ArgSpecConvertible, parse_pipeline  # noqa: E402
 from xdsl.utils.exceptions import ArgSpecParseError, ParseError  # noqa: E402
 
-LEVEL = "bounded_symbolic"
+LEVEL = "other"
 EXPLANATION = (
     "Round trip: an option-carrying pass object (generated dataclasses with one field per supported option type and every "
     "registered pass that has options) gets SYMBOLIC option values - strings as bounded symbolic text (every cell ranges over "
